@@ -13,6 +13,10 @@
 (***************************************************************************)
 EXTENDS Integers
 
+CONSTANT
+  \* @type: Int;
+  AlignC   \* the request alignment of this run (one Apalache run per value: keeps each SMT problem small)
+
 VARIABLES
   \* @type: Int;
   ma,      \* MIN_ALIGN
@@ -71,7 +75,7 @@ IndInit ==
   /\ IndInv
 
 Alloc ==
-  \E size \in Int : \E align \in Aligns :
+  \E size \in Int : \E align \in {AlignC} :
     /\ size >= 0
     /\ LET p == FastAddr(size, align) IN
        /\ p # -1
@@ -97,7 +101,7 @@ ShrinkLast ==
 \* in-place grow of the last block
 GrowLast ==
   \E nsz \in Int : \E nal \in Aligns :
-    /\ has /\ nsz >= bSize /\ nal <= bAlign
+    /\ has /\ nsz >= bSize /\ nal <= bAlign /\ bAlign = AlignC
     /\ LET delta == RoundUp(nsz, ma) - bSize
            asz   == IF bAlign < ma THEN RoundUp(delta, ma) ELSE RoundUp(delta, bAlign)
            basep == IF bAlign > ma THEN RoundDown(finger, bAlign) ELSE finger
@@ -118,6 +122,20 @@ Init ==
   /\ Mod(data, 16) = 0 /\ Mod(footer, 16) = 0
   /\ finger = footer
   /\ has = FALSE /\ bAddr = 0 /\ bSize = 0 /\ bAlign = 1 /\ bHi = 0
+
+CI1 == AlignC = 1
+CI2 == AlignC = 2
+CI4 == AlignC = 4
+CI8 == AlignC = 8
+CI16 == AlignC = 16
+CI32 == AlignC = 32
+CI64 == AlignC = 64
+CI128 == AlignC = 128
+CI256 == AlignC = 256
+CI512 == AlignC = 512
+CI1024 == AlignC = 1024
+CI2048 == AlignC = 2048
+CI4096 == AlignC = 4096
 
 \* the copy of the in-place shrink must not overlap (copy_nonoverlapping): checked as an action property
 =============================================================================
